@@ -281,8 +281,8 @@ def validate(tier):
     import pydiffx.reader as R
     from sx.selftest import regex_patterns, all_strings
     n = 0
-    pats = [R.DiffXReader._HEADER_RE.real, R.DiffXReader._HEADER_OPTION_KEY_RE.real,
-            R.DiffXReader._HEADER_OPTION_VALUE_RE.real] if hasattr(R.DiffXReader, '_HEADER_RE') else []
+    from sx.selftest import loaded_patterns
+    pats = [p for p in loaded_patterns('pydiffx.reader')]
     corpus = HEADERS + all_strings(b'a=, 1', 3) + [b'#diffx:' + t for t in all_strings(b'a=, ', 4)]
     n += regex_patterns(pats, corpus)
 
